@@ -225,6 +225,19 @@ def rule_same_value(ctx: Ctx, rule: str = "C01.3") -> None:
     p = g.always_followed_by(up_n, lambda n: n is af_n, labels=C.NO_EXC)
     ctx.check(p is None, rule, "every applied fill is recorded on the order", po, af, "add_fill post-dominates the commit",
               "a path applies the delta to the account without recording the fill", detail={"path": C.fmt_path(p) if p else []})
+    # between commit and record nothing may fail -- stated beliefs (asserts) included: the account was already charged
+    ci = A.call_index(ctx)
+    for callee in ci.callees(po.module, af):
+        for tq in ci.overrides_of(callee):
+            f2 = ctx.repo.funcs.get(tq)
+            if f2 is None:
+                continue
+            ctx.analysed_funcs.add(tq)
+            risky = [n for n in C.walk_shallow(f2.node) if isinstance(n, (ast.Assert, ast.Raise))]
+            ctx.check(not risky, rule, f"recording a fill cannot fail ({tq.split('.', 2)[-1]} has no assert/raise)", f2,
+                      risky[0] if risky else f2.node, "no assert / raise on the record path",
+                      f"'{ast.unparse(risky[0])[:70] if risky else ''}' can fail after the account was already charged for the fill: the fill and "
+                      "its fee are then never recorded on the order (account totals != initial + reported fills - reported fees)")
     # fees come from the fee strategy on the rounded fill
     fdef = _local(po, fe)
     okf = bool(fdef) and "calculate_fees" in ast.unparse(fdef[0]) and bu in ast.unparse(fdef[0])
